@@ -437,6 +437,28 @@ class Cascade:
         """Run a single stage."""
         start_time = time.time()
 
+        # Check checkpoint gate (fails closed, as in run())
+        if stage.checkpoint:
+            try:
+                allowed = bool(stage.checkpoint(input_signal))
+            except Exception as e:
+                return StageResult(
+                    stage_name=stage.name,
+                    status=StageStatus.FAILED,
+                    input_signal=input_signal,
+                    output_signal=None,
+                    error=str(e),
+                    processing_time_ms=(time.time() - start_time) * 1000
+                )
+            if not allowed:
+                return StageResult(
+                    stage_name=stage.name,
+                    status=StageStatus.BLOCKED,
+                    input_signal=input_signal,
+                    output_signal=None,
+                    processing_time_ms=(time.time() - start_time) * 1000
+                )
+
         try:
             output = stage.processor(input_signal)
             return StageResult(
